@@ -177,15 +177,17 @@ class Gate:
         self.classical_controls = None
         self.style = style
 
+        # Qubit indices are kept as lists, whatever sequence type
+        # (tuple, array, ...) they are given in.
         if not isinstance(targets, Iterable) and targets is not None:
             self.targets = [targets]
         else:
-            self.targets = targets
+            self.targets = None if targets is None else list(targets)
 
         if not isinstance(controls, Iterable) and controls is not None:
             self.controls = [controls]
         else:
-            self.controls = controls
+            self.controls = None if controls is None else list(controls)
 
         if (
             not isinstance(classical_controls, Iterable)
@@ -1024,9 +1026,6 @@ class ControlledGate(Gate):
             control_value=control_value,
             target_gate=target_gate,
             **kwargs,
-        )
-        self.controls = (
-            [controls] if not isinstance(controls, list) else controls
         )
         self.control_value = control_value
         self.target_gate = target_gate
